@@ -746,6 +746,21 @@ func urlMain(args []string) {
 		normReq(&r)
 		both(r, style())
 	}
+	// one inclusion path with an empty word (a stray dot), alone and next to a sound one: the
+	// request is whatever the text splits into, and a word that names nothing makes no chain
+	for _, path := range []string{"/ta", "/tb", "/ta/1", "/ta/1/rs", "/td"} {
+		for _, inc := range []string{"r.", ".", ".r", "r..q", "rs.", "rs.s.", "..", "r.,rs", "rs,.r", "t.q.", "q."} {
+			raw := path + "?include=" + inc
+			req, ok := reqFromRaw(raw)
+			if !ok || !asciiReq(req) {
+				continue
+			}
+			st := style()
+			st.ID = "1"
+			stt.class("stray-dot")
+			emit(uCase{Fam: "url", Mode: "url", Req: req, Style: st, Raw: raw})
+		}
+	}
 	// mutated raw URLs: the request is whatever net/url makes of the text
 	muts := []func(string) string{
 		func(s string) string { i := rng.Intn(len(s) + 1); return s[:i] + "%" + s[i:] },
